@@ -36,11 +36,14 @@ Definition id_valid (name : list Z) : bool :=
 
 (* ------------------------------------------------------------------ passwords *)
 Definition kb (pw : list Z) : list Z := fixlen 8 (map (fun ch => (2 * ch) mod 256) (cprefix (firstn 8 pw))).
-(* cmbbs.GenPasswd: indexes passwd[0] *)
-Definition gen (pw : list Z) : res (option (list Z)) :=
+(* cmbbs.GenPasswd: len(passwd) == 0 || passwd[0] == 0 gives the all-zero hash, and no error (Model/C02.v
+   gen_passwd). NewRegister and ptt.ChangePasswd store whatever it returns, and nothing above them (bbs.Register,
+   bbs.ChangePasswd, the gin handlers) looks at the password: an account can be registered with, or changed to, the
+   empty password, and from then on nothing verifies against its hash. *)
+Definition gen (pw : list Z) : option (list Z) :=
   match pw with
-  | [] => Crash
-  | ch :: _ => if ch =? 0 then Ok None else Ok (Some (kb pw))
+  | [] => None
+  | ch :: _ => if ch =? 0 then None else Some (kb pw)
   end.
 (* cmbbs.CheckPasswd(stored, input) *)
 Definition verify (h : option (list Z)) (pw : list Z) : bool :=
@@ -100,8 +103,7 @@ Definition E_API : Z := 99.        (* any non-200 answer of a gin handler *)
 
 Inductive result : Type :=
 | ROk (payload : list Z)
-| RErr (code : Z)
-| RCrash.
+| RErr (code : Z).
 
 Inductive op : Type :=
 | ORegister (name pw email : list Z)
@@ -127,18 +129,14 @@ Definition register (c : cst) (name pw email : list Z) : result * cst :=
   let id := cid name in
   if negb (id_valid name) || ci_eqb id ptttype.STR_REGNEW || ci_eqb id ptttype.STR_GUEST then (RErr E_USERID, c)
   else if existsb (fun r => ci_eqb id r) (reserved c) then (RErr E_USERID, c)
-  else match gen pw with
-       | Ok h =>
-           match lookup (slots c) id with
-           | Some _ => (RErr E_EXISTS, c)
-           | None =>
-               let c1 := after_clean c in
-               match find_empty (slots c1) with
-               | None => (RErr E_NOSLOT, c1)
-               | Some k => (ROk id, with_slots c1 (set_nth k (mkAcct id h (cstr_field (Z.to_nat ptttype.EMAILSZ) email) false false) (slots c1)))
-               end
+  else match lookup (slots c) id with
+       | Some _ => (RErr E_EXISTS, c)
+       | None =>
+           let c1 := after_clean c in
+           match find_empty (slots c1) with
+           | None => (RErr E_NOSLOT, c1)
+           | Some k => (ROk id, with_slots c1 (set_nth k (mkAcct id (gen pw) (cstr_field (Z.to_nat ptttype.EMAILSZ) email) false false) (slots c1)))
            end
-       | _ => (RCrash, c)
        end.
 
 Definition shown_id (a : acct) : list Z := if id_valid (a_id a) then a_id a else [].   (* bbs.ToUUserID *)
@@ -168,10 +166,7 @@ Definition change_pw (c : cst) (name old new : list Z) : result * cst :=
        | Some k =>
            let a := nth k (slots c) no_acct in
            if verify (a_pw a) old
-           then match gen new with
-                | Ok h => (ROk [], with_slots c (set_nth k (mkAcct (a_id a) h (a_email a) (a_old a) (a_xempt a)) (slots c)))
-                | _ => (RCrash, c)
-                end
+           then (ROk [], with_slots c (set_nth k (mkAcct (a_id a) (gen new) (a_email a) (a_old a) (a_xempt a)) (slots c)))
            else (RErr E_USERID, c)
        end.
 
@@ -246,7 +241,7 @@ Fixpoint mk_slots (fuel : nat) (l : list (list Z)) : list acct :=
   | O => []
   | S f => match l with
            | id :: pw :: em :: fl :: r =>
-               mkAcct id (match gen pw with Ok h => h | _ => None end) em
+               mkAcct id (gen pw) em
                       (negb (nth 0 fl 0 =? 0)) (negb (nth 1 fl 0 =? 0)) :: mk_slots f r
            | _ => []
            end
@@ -273,7 +268,6 @@ Definition enc_result (r : result) : list Z :=
   match r with
   | ROk p => ST_OK :: enc_str p
   | RErr e => [ST_ERR; e]
-  | RCrash => [ST_CRASH]
   end.
 
 Fixpoint mask (pool : list (list Z)) (h : option (list Z)) : Z :=
